@@ -208,6 +208,9 @@ impl PoolEntry {
 
 		let FieldNameAndDesc { name, desc: descriptor } = pool.get_field_name_and_type(name_and_type_index)?;
 
+		// the arguments can be dynamic constants again
+		let _guard = pool.enter_nesting()?;
+
 		let Some(bootstrap_methods_) = bootstrap_methods.as_ref() else {
 			bail!("cannot load `Dynamic` pool entry, as there's no `BootstrapMethods` attribute")
 		};
@@ -285,9 +288,35 @@ impl PoolEntry {
 pub(crate) struct PoolRead {
 	/// We store a [`None`] for the zero index, as well as for the upper indices of [`PoolEntry::Double`] and [`PoolEntry::Long`].
 	inner: Vec<Option<PoolEntry>>,
+	/// The current nesting depth of the recursive things read with this pool, see [`PoolRead::enter_nesting`].
+	nesting: std::cell::Cell<u16>,
+}
+
+/// Returned by [`PoolRead::enter_nesting`], leaves the nesting level again when dropped.
+pub(crate) struct NestingGuard<'a>(&'a PoolRead);
+
+impl Drop for NestingGuard<'_> {
+	fn drop(&mut self) {
+		self.0.nesting.set(self.0.nesting.get() - 1);
+	}
 }
 
 impl PoolRead {
+	/// The maximum nesting of element values in annotations and of dynamic constants in bootstrap method arguments.
+	const MAX_NESTING: u16 = 256;
+
+	/// Enters one more level of a recursive structure (nested element values, dynamic constants as bootstrap
+	/// method arguments). Both can be nested arbitrarily deep (or, for dynamic constants, even cyclic) in a class
+	/// file, so we give an error instead of overflowing the stack.
+	pub(crate) fn enter_nesting(&self) -> Result<NestingGuard<'_>> {
+		let nesting = self.nesting.get();
+		if nesting >= Self::MAX_NESTING {
+			bail!("nesting deeper than {} levels", Self::MAX_NESTING);
+		}
+		self.nesting.set(nesting + 1);
+		Ok(NestingGuard(self))
+	}
+
 	/// Reads the constant pool from the specified reader. The first thing read is an `u16` specifying the size of the constant pool.
 	pub(crate) fn read(reader: &mut impl ClassRead) -> Result<PoolRead> {
 		let mut pool = vec![None];
@@ -395,7 +424,7 @@ impl PoolRead {
 			};
 		}
 
-		Ok(PoolRead { inner: pool })
+		Ok(PoolRead { inner: pool, nesting: std::cell::Cell::new(0) })
 	}
 
 	fn get(&self, index: u16) -> Result<&PoolEntry> {
